@@ -284,6 +284,11 @@ class Container:
 
     def fillnumpy(self, data, weights=1.0):
         self._checkForCrossReferences()
+        # like ``fill``, ignore rows whose weight is zero, negative or NaN (on a copy: the caller's array is not changed)
+        if isinstance(weights, numpy.ndarray):
+            weights = numpy.where(weights > 0.0, weights, 0.0)
+        elif not weights > 0.0:
+            weights = 0.0
         self._numpy(data, weights, shape=[None])
 
     def _checkNPQuantity(self, q, shape):
